@@ -145,7 +145,9 @@ def check(ctx):
                     ctx.ob("R-WHO-SEND", "%s stored %s written only on first send, own timer or resume (%s)" % (cq, kind, tr.label()),
                            first or resume or timer, where=where(e), function=e.func, construct="%s/send-context/%s" % (e.func, tr.label()),
                            msg="stored %s bytes are written in context %s" % (kind, tr.label()), trigger=tr.label())
-                    exp_dup = 0 if first else 8
+                    # an entry taken from the hold-back queue in this very region has never been on the wire, whatever the context
+                    never_sent = isinstance(obj, tuple) and obj[0] == "popped" and obj[1] == "queuePublishTx"
+                    exp_dup = 0 if (first or never_sent) else 8
                     pats = [x for x in patches_on(flat_region, obj) if flat_region.index(x) < flat_region.index(e)]
                     vcond = version_cond(e.conds)
                     unconditional = RETRY_KINDS[kind]
